@@ -21,7 +21,7 @@ ASSUMPTIONS = ["CPython float/Fraction arithmetic", "nvmon.ref exact reference m
 FLOORS = {'quick': {'single': 1500, 'list': 300, 'ders0': 300, 'grid_point': 1000, 'grid_shape': 150, 'meval': 2000,
                     'corner': 300},
           'thorough': {'single': 15000, 'grid_point': 10000, 'meval': 20000}}
-MANDATORY_TAGS = ['pdim3', 'rational', 'u:knot_full', 'u:knot', 'u:start', 'u:end', 'kv:unclamped', 'kv:range',
+MANDATORY_TAGS = ['ss:delta>2/3', 'pdim3', 'rational', 'u:knot_full', 'u:knot', 'u:start', 'u:end', 'kv:unclamped', 'kv:range',
                   'ss:distinct', 'ss:one-direction', 'route:list', 'span:binary', 'dim4']
 TECHNIQUE = ("runtime monitoring: exact-arithmetic post-condition on every evaluators.*.evaluate() call (M-eval hook) and on "
              "each public evaluation entry point, under a class-enumerating seeded workload")
@@ -56,6 +56,11 @@ def gen(rng, tier, shard, nshards):
                 kw['mindeg'] = 2
             if kw['pdim'] == 1 and rng.random() < 0.15:
                 kw['dim'] = 4
+            if rng.random() < 0.08:
+                # un-normalised domain that starts at a small decimal (not reproduced by an 18-decimal round trip)
+                a_ = rng.choice([0.1 ** 3, rng.uniform(0.0005, 0.004), -rng.uniform(0.0005, 0.004), 0.1 ** 3])
+                kw.update(normalize=False, lohi=(a_, a_ + rng.choice([1.0, 2.5, 5.0])), clamped_only=True)
+                kw.pop('kvcls', None)
         kw.setdefault('span', rng.choice(['linear', 'binary', None]))
         pd = kw.pop('pdim')
         sd = G.rand_shape(rng, pd, **kw)
@@ -144,6 +149,15 @@ def check(case, ctx):
         else:
             # delta route: documented as the step of the sampling; n = round(1/delta) samples per direction
             dl = [1.0 / w for w in want]
+            if rng.random() < 0.35:
+                # any accepted delta (0 < delta < 1), not only reciprocals of integers; the documented grid [start, start + delta, ..., end]
+                # has at least its two end points
+                import math
+                dl = [rng.uniform(0.04, 0.99) for _ in want]
+                want = [max(2, int(math.floor(1.0 / x + 0.5))) for x in dl]
+                ctx.tag('ss:arbitrary-delta')
+                if any(x > 2.0 / 3.0 for x in dl):
+                    ctx.tag('ss:delta>2/3')
             if pdim == 1:
                 o.delta = dl[0]
             else:
@@ -151,7 +165,17 @@ def check(case, ctx):
         ss = [o.sample_size] if pdim == 1 else list(o.sample_size)
         ctx.check(ss == want, 'grid/sample_size-roundtrip', 'sample size set via %s to %r reads back %r'
                   % (how, want, ss), what='grid_shape')
-        pts = o.evalpts
+        import signal
+        from ..core import CaseTimeout, CASE_TIMEOUT_S
+        signal.alarm(30)
+        try:
+            pts = o.evalpts
+        except CaseTimeout:
+            ctx.fail('grid/no-termination', 'evalpts of a %d-sample grid did not return within 30 s (domain %r, span search %s)'
+                     % (max(want), G.domains_of(o), sd.get('span')))
+            return
+        finally:
+            signal.alarm(CASE_TIMEOUT_S)
         total = 1
         for w in want:
             total *= w
